@@ -47,7 +47,7 @@ CHECKS = {
     "C14": dict(
         level="model_checking",
         rule="configuration (parent scope x generateSelector x ignoreStatusChanges x controller selector) x every event shape: parent add/delete/tombstone/6 update kinds/resync for matching, non-matching and finalizer-carrying parents; child add/update/delete/tombstone/resync for 15 roles (incl. a controller reference naming the parent kind in another API version); parents incl. one that carries the finalizer plus a garbage-collector finalizer while being deleted; with and without a finalize hook; related-object events (8); "
-             "each case = fresh world with the real Start()-installed handlers, one delivered event, queue compared with the decision table; in the related-object cases the customize hook answers 503 for two other parents that were never synced; a parent with a negative-only selector and an orphan without labels; cluster-scoped parents select their related object by name only (any namespace)",
+             "each case = fresh world with the real Start()-installed handlers, one delivered event, queue compared with the decision table; in the related-object cases the customize hook answers 503 for two other parents that were never synced; a parent with a negative-only selector and an orphan without labels; cluster-scoped parents select their related object by name only (any namespace); child role 'owned by the parent that is in foreground deletion'",
         units=[
             dict(pkg=COMPOSITE, test="TestVerifC14", shards=dict(quick=4, thorough=4), budget=dict(quick=300, thorough=600)),
             dict(pkg=DECORATOR, test="TestVerifC14", shards=dict(quick=4, thorough=4), budget=dict(quick=300, thorough=600)),
@@ -90,7 +90,7 @@ CHECKS = {
         level="model_checking",
         rule="parent scope(2) x all rule sets of 1 and 2 rules over resource(2: namespaced, cluster-scoped) x selection(10: none, empty selector, matchLabels, matchExpressions, namespace own/foreign, names, namespace+names, two invalid mixes) = 840 sets, against 7 related objects across two namespaces and cluster scope, each also with a second hosted controller (own customize hook, other rules) looking at the same parent first, for composite and decorator controllers; "
              "a related object that changes while no customize answer is remembered for the parent's new generation must still wake the parent; "
-             "each case: sync, cached re-sync, a change of every related object, a parent generation change, finalize; the wake-up agreement is re-checked with two more parents around for which the customize hook fails; the two names of the names rule are listed in descending order (composite; ascending in the decorator unit)",
+             "each case: sync, cached re-sync, a change of every related object, a parent generation change, finalize; the wake-up agreement is re-checked with two more parents around for which the customize hook fails; the two names of the names rule are listed in descending order (composite; ascending in the decorator unit); a selected related object that is terminating and then loses the label it was selected by",
         units=[
             dict(pkg=COMPOSITE, test="TestVerifC15", shards=dict(quick=4, thorough=8), budget=dict(quick=300, thorough=600)),
             dict(pkg=DECORATOR, test="TestVerifC15", shards=dict(quick=4, thorough=8), budget=dict(quick=300, thorough=600)),
@@ -196,7 +196,7 @@ CHECKS = {
         level="model_checking",
         rule="(a) rollout histories (bring-up, two template edits -> three live revisions, delete -> finalize) x revision field paths (default, spec.template, spec.template.ver) x customize x finalize x dynamic/server-side apply/dynamic with log verbosity 10 (code behind V(n).Enabled() guards) x a 500 injected at every single request position of the history: cache fingerprint (pointer + content) around every sync and 'the hook was sent what the server delivered'; "
              "(a2) the decorator counterpart: decorate, edit, unselect/delete with finalize x customize x InPlace/Recreate x log verbosity x a 500 at every request position; (b) two workers syncing distinct rolling parents that share every informer, the customize cache and the SSA memo: all interleavings at API-request/hook granularity with <= 2 (thorough 3) preemptions, outcome (store + hook-request multiset) must equal a serial order's; "
-             "(c) supplementary, outside the family: the same bodies free-running under the race detector (60 / 300 repetitions x 4 rounds x 3 concurrent syncs with parallel per-revision hook calls); every request of the history (by request identity) also fails with 429, server timeout, transport timeout (thorough: 403); the race pass ends with a round in which every per-revision hook call fails; the customize answer also selects a cluster-scoped related object by name",
+             "(c) supplementary, outside the family: the same bodies free-running under the race detector (60 / 300 repetitions x 4 rounds x 3 concurrent syncs with parallel per-revision hook calls); every request of the history (by request identity) also fails with 429, server timeout, transport timeout (thorough: 403); the race pass ends with a round in which every per-revision hook call fails; the customize answer also selects a cluster-scoped related object by name; the finalize hook of the history answers finalized:true",
         units=[
             dict(pkg=COMPOSITE, test="TestVerifC17", shards=dict(quick=8, thorough=16), budget=dict(quick=600, thorough=1800)),
             dict(pkg=DECORATOR, test="TestVerifC17", shards=dict(quick=2, thorough=4), budget=dict(quick=600, thorough=1800)),
@@ -208,7 +208,7 @@ CHECKS = {
     "C18": dict(
         level="model_checking",
         rule="all enabled operation sequences up to length 5 (thorough 7; 3 subscribers / 2 resources: one less) (part 1) over subscribe, subscribe to an undiscovered resource, addHandler, addHandler with own resync period, removeHandlers, close (remove+close as production does), object add/update/delete, tick of a handler's own resync timer; "
-             "after every operation the real factory/wrapper is compared with the reference model: refcount, informer running iff subscribed, LIST per incarnation, watch streams open, per-handler event sequence (add-time replay, later events, silence after removal); one configuration of the sequence search uses a cluster-scoped resource",
+             "after every operation the real factory/wrapper is compared with the reference model: refcount, informer running iff subscribed, LIST per incarnation, watch streams open, per-handler event sequence (add-time replay, later events, silence after removal); one configuration of the sequence search uses a cluster-scoped resource; deletions arrive as tombstones (DeletedFinalStateUnknown) in the two-version and cluster-scoped configurations",
         rewrite_sync=True,
         units=[
             dict(pkg=INFORMER, test="TestVerifC18", shards=dict(quick=16, thorough=16), budget=dict(quick=600, thorough=3000)),
